@@ -50,3 +50,10 @@ spec fn cell_eq(a: Cell, b: Cell) -> bool {
     }
 }
 
+
+// the map a literal denotes: n (value, key) pairs of s inserted left to right
+pub open spec fn map_of(s: Seq<Cell>, n: int) -> Xmap
+    decreases n
+{
+    if n <= 0 { xmap_empty() } else { xmap_insert(map_of(s, n - 1), s[2 * n - 1], s[2 * n - 2]) }
+}
